@@ -1,7 +1,6 @@
 package c09
 
 import (
-	"encoding/json"
 	"testing"
 
 	"verif/harness/pbt"
@@ -24,11 +23,4 @@ func dispatch() pbt.Dispatch {
 	return pbt.Dispatch{}.Add(detPart.Name, detPart.Handler()).Add(transPart.Name, transPart.Handler()).WithProbes(probes())
 }
 
-func probes() pbt.Probes {
-	return pbt.KnownCaseProbes("known", func(part string, raw json.RawMessage) pbt.Verdict {
-		if part == detPart.Name {
-			return detPart.CheckRaw(raw)
-		}
-		return transPart.CheckRaw(raw)
-	})
-}
+func probes() pbt.Probes { return findingProbes() }
